@@ -224,12 +224,13 @@ theorem oneK_ok (jo : JobObj) (r : Job × Bool × Bool × Bool) (s1 : Sys) (h : 
     simp only [Bool.not_true, Bool.false_eq_true, if_false] at h ⊢
     by_cases hd : (decide (r.1.status ≠ jo.job.status) || r.2.2.2) = true
     · simp only [hd, if_true] at h ⊢
-      cases hw : (apiUpdateJobStatus s2 jo { jo with job := r.1 }).2 with
+      cases hw : (apiUpdateJobStatus s2 (statusBase s2 jo (r.1.admissionError ≠ jo.job.admissionError || r.2.1 ≠ jo.finalizer))
+          { jo with job := r.1 }).2 with
       | false => rw [hw] at h; simp at h
       | true =>
         rw [hw] at h
         simp only [Bool.not_true, Bool.false_eq_true, if_false] at h ⊢
-        exact ⟨h, fun _ => apiUpdateJobStatus_true s2 jo { jo with job := r.1 } hw⟩
+        exact ⟨h, fun _ => apiUpdateJobStatus_true s2 _ { jo with job := r.1 } hw⟩
     · simp only [hd, Bool.false_eq_true, if_false, Bool.not_true] at h ⊢
       refine ⟨h, fun hne => ?_⟩
       exfalso
